@@ -673,6 +673,8 @@ class Assembler:
         self.functions.append({'fn': qual, 'file': repo_file, 'lines': ls,
                                'sha256': hashlib.sha256(it.proper.encode()).hexdigest()[:16],
                                'body_sha': hashlib.sha256(it.body.encode()).hexdigest()[:16],
+                               'n_closures': len(closure_heads(it.body)),
+                               'n_adapters': len(re.findall(r'\.(?:map|map_err|and_then|and|or|or_else|unwrap_or_else|unwrap_or_default|filter|filter_map|for_each|fold|any|all|ok_or_else|map_or|map_or_else|then|then_some|zip|flatten|take_while|skip_while)\s*\(', rsparse.mask(it.body))),
                                'rules': counts, 'rebound': rebound,
                                'annotated_body': bool(loops) or any(a != '<start>' for (_, a, _, _) in proofs) or bool(closures)})
         for k, v in counts.items():
@@ -800,6 +802,36 @@ class Assembler:
                 while i < len(lines) and not lines[i].strip().startswith('//@endfn'):
                     ann.append((i + 1, lines[i])); i += 1
                 self.do_fn_guarded(repo_file, container, name, opts, ann, i + 1)
+            elif s.startswith('//@stmt'):
+                # //@stmt <repo file> | <container or -> | <fn> | <statement prefix> : R14 - ONE statement of a function that
+                # cannot be brought under contract as a whole (it builds threads / runtimes) is sliced out verbatim: from
+                # the first occurrence of the prefix at the start of a statement to the `;` that ends it.  Everything
+                # else of that function is dropped - stated in the evidence as `slice`.
+                parts = [p.strip() for p in s[len('//@stmt'):].split('|')]
+                src, it = find_fn(parts[0], parts[1], parts[2])
+                counts = {}
+                body = transform_common(it.body, counts)
+                bm = rsparse.mask(body)
+                k = bm.find(parts[3])
+                if k < 0:
+                    raise AnchorError('statement anchor lost in %s::%s: %r' % (parts[0], parts[2], parts[3]))
+                depth = 0; e = -1
+                for q in range(k, len(bm)):
+                    ch = bm[q]
+                    if ch in '([{': depth += 1
+                    elif ch in ')]}': depth -= 1
+                    elif ch == ';' and depth == 0: e = q; break
+                if e < 0:
+                    raise AnchorError('statement not terminated in %s::%s: %r' % (parts[0], parts[2], parts[3]))
+                stmt = body[k:e + 1]
+                counts['R14'] = 1
+                for kk, v in counts.items():
+                    self.rule_counts[kk] = self.rule_counts.get(kk, 0) + v
+                ls = it.line_span()
+                self.functions.append({'fn': '%s::%s::%s#slice(%s)' % (parts[0], parts[1], parts[2], parts[3]), 'file': parts[0], 'lines': ls,
+                                       'sha256': hashlib.sha256(stmt.encode()).hexdigest()[:16], 'body_sha': hashlib.sha256(stmt.encode()).hexdigest()[:16],
+                                       'rules': counts, 'rebound': False, 'annotated_body': False, 'slice': True})
+                self.emit_block(stmt, '%s:%d' % (parts[0], ls[0]))
             elif s.startswith('//@consts'):
                 # //@consts <repo file> | <container or -> : every const/static item of the container (zero or more), verbatim (R6)
                 parts = [p.strip() for p in s[len('//@consts'):].split('|')]
